@@ -278,6 +278,30 @@ def run(ctx):
             ctx.notes.append('defaultReadBlock is %d (model constant 4096; irrelevant by chunking_irrelevant)' % block)
     ctx.count('defaultReadBlock', block)
     cases = make_cases(ctx, block)
+    # ---- never a silently truncated program: a character the front end cannot digest (NUL, lone controls) between two
+    # statements must end in an error or let the LAST statement run — whatever the decoder did right
+    from zngen import cps as _cps
+    tail_marker = '（显示：“终”）'
+    probes = []
+    bases = ['（显示：1）\n（显示：2）\n', '令甲设为【1，2】\n以项遍历甲：\n    （显示：项）\n', '如何f？\n    输出 1\n（显示：（f））\n']
+    for b in bases:
+        lines_ = b.split('\n')
+        for i in range(len(lines_)):
+            for ch in ('\x00', '\x00\x00', '\x01', '\x7f', '\ufeff', '\u200b'):
+                if lines_[i].startswith(' '):
+                    continue
+                t = '\n'.join(lines_[:i] + [ch + lines_[i]] + lines_[i + 1:]) + tail_marker + '\n'
+                probes.append(t)
+                probes.append('\n'.join(lines_[:i] + [lines_[i] + ch] + lines_[i + 1:]) + tail_marker + '\n')
+    plines = ['run ' + _cps(t) for t in probes]
+    pgot = ctx.run_go(plines)
+    for line, gout in zip(plines, pgot):
+        ctx.evaluations += 1
+        ctx.count('truncation-probe')
+        if gout.startswith('ok') and 'e7bb88' not in gout:      # 终 never displayed although the run "succeeded"
+            ctx.violation('truncated-program', line, gout, 'an error, or a run that reaches the final statement （显示：“终”）')
+        ctx.nontriv(line)
+    ctx.streams.append({'stream': 'truncation-probe', 'cases': len(plines)})
     # ---- e2e: LoadFile(...).Execute against the spec-decoded program --------------------------------------------------
     e2e = [c for s, c in cases if s == 'e2e']
     got = ctx.run_go(e2e, timeout_ms=8000)
